@@ -1,12 +1,16 @@
 """C05 — datagram duplicates never re-execute a handler (DESIGN.md §5 C05).
 
 Proof: Props/C05.lean (dup_not_rehandled, dup_reply_equal, fresh_after_lifetime, own_mid_no_crosstalk, run_conforms) over
-       Model/Dedup.lean for arbitrary event lists.
+       Model/Dedup.lean for arbitrary event lists; Props/C05Lock.lean (mutex_per_mid, handler_once_per_mid_n,
+       completed_copies_exactly_one_execution, no_deadlock, different_mids_independent, ...) over Model/DedupLockN.lean: n goroutines
+       over the modelled MutexMap, for arbitrary schedules.
 Tie:   T — Generated/Dedup.lean: ExchangeLifetime (compiled value), lookup key, store key, per-MID lock shape of handleReq,
            checkMyMessageID constants (AST of udp/client/conn.go);
        X — scenarios on a real udp/client.Conn (in-memory session, synctest virtual clock): duplicates / reordering,
            CON/NON, handler behaviours, MIDs equal to own outgoing MIDs, both sides of 247 s (+-1 ns), copies processed
-           concurrently; handler log + datagrams compared with the model; the specification's judge on the observed history.
+           concurrently (2..8 copies, also while the first handler runs and around the lifetime); request codes 0.01-0.08, 0.31;
+           Reset replies and replies with unknown option numbers (datagrams decoded by the harness's own parser);
+           handler log + datagrams compared with the model; the specification's judge on the observed history.
 """
 import glob
 import json
@@ -15,10 +19,75 @@ import random
 
 from . import common
 
-MODULES = ["CoapVerif.Props.C05", "CoapVerif.Findings.C05"]
+MODULES = ["CoapVerif.Props.C05", "CoapVerif.Props.C05Lock", "CoapVerif.Findings.C05"]
 GENERATED = ["Dedup.lean"]
 L = 247 * 10**9
-BEHS = ["pb", "pbe", "none", "sep", "empty", "hjm", "hjr"]
+BEHS = ["pb", "pbe", "none", "sep", "empty", "hjm", "hjr", "rst", "rstc", "ox", "oc", "oxc"]
+# request codes: the four methods package codes names, FETCH / PATCH / iPATCH (RFC 8132), two unassigned ones
+REQ_CODES = [1, 2, 3, 4, 5, 6, 7, 8, 31]
+
+
+def with_code(beh, code):
+    return beh if code == 1 else "%s.%d" % (beh, code)
+
+
+def code_family():
+    """Every request code x CON/NON x {duplicate after the reply, 3 copies at once} on every level; the duplicate must not
+    reach the handler whatever the code is."""
+    out = []
+    for lvl in ("", " dtlssrv"):
+        for code in REQ_CODES:
+            for typ in ("con", "non"):
+                for beh in ("pb", "pbe"):
+                    b = with_code(beh, code)
+                    mid = 100 + code
+                    out.append("own 0%s | recv %s %d c0de %s | recv %s %d c0de %s | par 3 %s %d c0de %s | sleep %d | recv %s %d c0de %s"
+                               % (lvl, typ, mid, b, typ, mid, b, typ, mid, b, L + 1, typ, mid, b))
+                out.append("own 0%s | par 4 %s %d c0de %s | recv %s %d c0de %s" % (lvl, typ, 300 + code, with_code("pb", code), typ, 300 + code, with_code("pb", code)))
+    for code in REQ_CODES:
+        for beh in ("pb", "none"):
+            b = with_code(beh, code)
+            out.append("own 0 udpsrv | recv con %d c0de %s | recv con %d c0de %s | par 3 con %d c0de %s" % (100 + code, b, 100 + code, b, 100 + code, b))
+    return out
+
+
+def option_family():
+    """Replies that carry option numbers the library does not know (elective and critical, > 255, repeated, empty and long
+    values) and Reset-typed replies: every replay must be the first reply, option for option."""
+    out = []
+    for lvl in ("", " dtlssrv"):
+        for beh in ("ox", "oc", "oxc", "rst", "rstc"):
+            for typ in ("con", "non"):
+                other = "non" if typ == "con" else "con"
+                out.append("own 0%s | recv %s 77 beef %s | recv %s 77 beef %s | sleep %d | recv %s 77 beef %s | par 3 %s 77 beef %s | sleep 2 | recv %s 77 beef %s"
+                           % (lvl, typ, beh, typ, beh, L - 1, other, beh, typ, beh, typ, beh))
+    for beh in ("ox", "oc", "oxc", "rst", "rstc"):
+        out.append("own 0 udpsrv | recv con 77 beef %s | newconn | recv con 77 beef %s | par 3 con 77 beef %s" % (beh, beh, beh))
+    return out
+
+
+def many_copies_family(rng):
+    """3..8 copies of a confirmable request processed at once (k goroutines): at the start, while the handler of the first is
+    still running (blk: virtual time passes in the handler), just before and just after the reply-cache lifetime, with and
+    without the housekeeping sweep - one execution per lifetime, identical replies."""
+    out = []
+    for lvl in ("", " dtlssrv"):
+        for k in range(3, 9):
+            mid = rng.randrange(0, 15000)
+            for beh in ("pb", "none", "empty", "rst") if k in (3, 8) else (rng.choice(["pb", "pbe", "none", "empty", "rst", "oc"]),):
+                tick = " | tick" if k % 2 else ""
+                out.append("own 0%s | par %d con %d %04x %s | sleep %d | par %d con %d %04x %s | sleep 2%s | par %d con %d %04x %s | recv con %d %04x %s"
+                           % (lvl, k, mid, mid, beh, L - 1, k, mid, mid, beh, tick, k, mid, mid, beh, mid, mid, beh))
+            dur = rng.choice([1, 5000, 10**9, L - 1, L + 1])
+            out.append("own 0%s | blk con %d %04x %d %d con | recv con %d %04x blk | sleep %d%s | par %d con %d %04x blk"
+                       % (lvl, mid + 1, mid + 1, dur, k, mid + 1, mid + 1, L + 1, " | tick" if k % 2 == 0 else "", k, mid + 1, mid + 1))
+            out.append("own 0%s | blk con %d %04x %d %d con | sleep %d | par %d con %d %04x blk"
+                       % (lvl, mid + 2, mid + 2, dur, k, L - 1, k, mid + 2, mid + 2))
+    for k in range(3, 9):
+        mid = rng.randrange(0, 15000)
+        beh = ("pb", "none", "empty", "rst", "pbe", "oc")[k - 3]
+        out.append("own 0 udpsrv | par %d con %d %04x %s | newconn | par %d con %d %04x %s | recv con %d %04x %s" % (k, mid, mid, beh, k, mid, mid, beh, mid, mid, beh))
+    return out
 
 
 def own_first(getmid):
@@ -93,7 +162,7 @@ def gen_scenario(rng):
             r = rng.random()
             if mid not in done or t > done[mid] + L:
                 dur = rng.choice([0, 1, 5000, 10**9, L - 1, L, L + 1])
-                k = rng.randint(0, 5)
+                k = rng.randint(0, 8)
                 ops.append("blk %s %d %s %d %d %s" % (typ, mid, tok, dur, k, typ if rng.random() < 0.8 else rng.choice(["con", "non"])))
                 t += dur
                 done[mid] = t
@@ -134,6 +203,11 @@ def gen_scenario(rng):
                 cls.add("dup")
             else:
                 beh = rng.choice(BEHS if rng.random() < 0.9 else ["pb"])
+                if beh in ("ox", "oxc") and rng.random() < 0.7:
+                    beh = "oc"                       # (the elective set has a 300 byte value: keep the histories short)
+                if rng.random() < 0.3:
+                    beh = with_code(beh, rng.choice(REQ_CODES))
+                    cls.add("request-code-not-GET")
                 tok = "%04x" % rng.randrange(65536) if rng.random() < 0.95 else "-"
                 typ = rng.choice(["con", "non"])
             if abs(mid - of) % 65536 < 16:
@@ -144,13 +218,15 @@ def gen_scenario(rng):
             # copy A has drawn by then (a scheduling matter the sequential model does not have)
             near_guard = typ == "non" and abs(((mid - of) % 65536) - 16383) <= 96
             if rng.random() < 0.15 and not near_guard:
-                k = rng.randint(2, 6)
+                k = rng.randint(2, 8)
                 ops.append("par %d %s %d %s %s" % (k, typ, mid, tok, beh))
                 cls.add("parallel-process")
+                if k >= 3:
+                    cls.add("parallel-process-3-or-more-copies")
             else:
                 ops.append("recv %s %d %s %s" % (typ, mid, tok, beh))
-            cls.add(typ + "-" + beh)
-            if beh == "sep":
+            cls.add(typ + "-" + beh.split(".")[0])
+            if beh.split(".")[0] == "sep":
                 pending_sep = True
             if mid not in last or t > last[mid][0] + L:
                 last[mid] = (t, beh, tok, typ)
@@ -239,6 +315,15 @@ def run_lines(ctx, art, lines, tag="x"):
             continue
         out = common.run_test_harness(ctx, art["test"], test, [lines[i] for i in idx], tag=tg, timeout=600)
         if out is None or len(out) != len(idx):
+            # the harness process died (a fatal error / a panic in a goroutine of the library): the output is flushed line by
+            # line, so the first line without output is the history that killed it
+            n = len(out or [])
+            if n < len(idx):
+                bad = lines[idx[n]]
+                log = (getattr(ctx, "harness_log", "") or "")
+                why = next((l.strip() for l in log.splitlines() if l.startswith(("fatal error:", "panic:"))), "harness process died")
+                ctx.violations.append(common.Violation("no-crash", "C05:crash:" + bad, "%s -> %s" % (bad, why),
+                                                       {"input": [bad], "observed": why}))
             return None, None, None
         for i, o in zip(idx, out):
             impl[i] = o
@@ -280,6 +365,8 @@ def explore(ctx, art):
     srv = dtls_many_between(random.Random(ctx.seed + 11)) + udpsrv_lines(random.Random(ctx.seed + 12), 3 if thorough else 1)
     srv += [l.replace("own 0 |", "own 0 dtlssrv |", 1) for l in fixed_lines() if l.startswith("own 0 |")]
     lines += srv
+    fam = code_family() + option_family() + many_copies_family(random.Random(ctx.seed + 13))
+    lines += fam
     ncorpus = len(lines)
     classes = {}
     nd = 0
@@ -295,6 +382,7 @@ def explore(ctx, art):
             nd += 1
     classes["level-dtlssrv (seeded scenarios repeated on a server-made connection)"] = nd
     classes["level-dtlssrv/udpsrv (fixed families)"] = len(srv)
+    classes["families: request codes 0.01-0.08/0.31, unknown options + Reset replies, 3..8 copies at once (hand/dtlssrv/udpsrv)"] = len(fam)
     impl, model, judge = run_lines(ctx, art, lines)
     if impl is None:
         return
@@ -332,8 +420,10 @@ def explore(ctx, art):
     ctx.cov["traces_validated_against_impl"] = len(lines)
     ctx.cov["exhaustive"] = False
     ctx.cov["rule"] = ("one evaluation = one scenario (3-15 ops) on a real udp/client.Conn; non-trivial = some message ID arrives at least "
-                       "twice (or copies are processed in parallel); distinct by scenario text. Boundary enumeration: {con,non} x 5 handler "
-                       "behaviours x {247 s -1 ns, 247 s, +1 ns} x {sweep, no sweep}; requests carrying each of the first six own message IDs.")
+                       "twice (or copies are processed in parallel); distinct by scenario text. Boundary enumeration: {con,non} x 12 handler "
+                       "behaviours x {247 s -1 ns, 247 s, +1 ns} x {sweep, no sweep}; requests carrying each of the first six own message IDs; "
+                       "families: 9 request codes x {con,non} x levels; unknown-option / Reset replies x levels; 3..8 copies at once, during the "
+                       "first handler, around the lifetime x levels hand / dtlssrv / udpsrv.")
     for l, o in list(zip(lines, impl))[:3] + list(zip(lines, impl))[ncorpus:ncorpus + 3]:
         ctx.sample({"input": l, "implementation": o})
 
@@ -343,7 +433,8 @@ def run(ctx):
     if art.get("test"):
         explore(ctx, art)
     ctx.assumptions += [
-        "one arrival is one atomic model step: per-message-ID mutex of handleReq (regenerated lock shape; exercised by the blocked-handler scenarios)",
+        "one arrival is one atomic model step: per-message-ID mutex of handleReq (regenerated lock shape; proved for n copies over the modelled MutexMap in Props/C05Lock.lean; exercised by the blocked-handler scenarios)",
+        "MutexMap: its sections under the map lock are atomic, fewer than 65 536 goroutines refer to one key at a time (uint16 count), sync.Mutex is correct",
         "pkg/cache and pkg/sync maps behave as atomic maps (C14)",
         "a NON request counts as 'a reply was produced' only when the handler answered through the response writer",
     ]
@@ -358,6 +449,10 @@ def replay(ctx, rep):
         return 1
     impl, model, judge = run_lines(ctx, art, lines, tag="replay")
     bad = 0
+    for v in ctx.violations:
+        if v.clause == "no-crash":
+            print(v.what)
+            bad += 1
     for l, o, m, j in zip(lines, impl or [], model or [], judge or []):
         print("%s\n  implementation: %s\n  model:          %s\n  judge:          %s" % (l, o, m, j))
         if j != "ok":
